@@ -280,6 +280,13 @@ def render_fdinfo(e):
 
 
 def run_case(case, acc):
+    try:
+        _run_case(case, acc)
+    finally:
+        setup()["ps"].PROCFS_PATH = "/vproc"
+
+
+def _run_case(case, acc):
     env = setup()
     ps, vkernel, ProcTable, tmp = env["ps"], env["vkernel"], env["ProcTable"], env["tmp"]
     pid = case["pid"]
@@ -306,10 +313,24 @@ def run_case(case, acc):
     p.fd_reserved = case.get("fd_reserved", 0)     # numbers reserved by system calls in progress (counted by st_size only)
     viols = []
 
+    moved = harness.chash(case)[-2] in "012"
+    if moved:
+        # psutil.PROCFS_PATH is re-pointed after the object was made: the object keeps describing the process of the procfs
+        # it was created on; under the new path the same pid is somebody else, with the same descriptor numbers
+        tb = ProcTable(btime=1_700_000_000)
+        tb.spawn(1, 1, ppid=0, comm=b"init")
+        pb = tb.spawn(pid, 500, ppid=1, comm=b"somebody else")
+        pb.fds = {e["fd"]: dict(target=os.path.join(tmp, "reg0"), pos=99, flags=0o100000,
+                                info_raw=b"pos:\t99\nflags:\t0100000\nmnt_id:\t1\n") for e in case["fds"][1:]}
+        pb.io = b"rchar: 1\nwchar: 2\nsyscr: 3\nsyscw: 4\nread_bytes: 5\nwrite_bytes: 6\ncancelled_write_bytes: 0\n"
+        acc.count("cases_with_procfs_path_moved_after_construction")
+
     def newvk():
         vk = vkernel.VK()
         vk.table = t
         vk.mount("/vproc", t)
+        if moved:
+            vk.mount("/vprocB", tb)
         return vk
 
     # ---- construction, num_fds, io_counters ---------------------------------------------------
@@ -320,6 +341,8 @@ def run_case(case, acc):
             viols.append(("construct_exception", f"Process() raised {e!r}"))
             acc.case(case, nontrivial(case), viols)
             return
+        if moved:
+            ps.PROCFS_PATH = "/vprocB"
         try:
             got = pr.num_fds()
         except Exception as e:  # noqa: BLE001
@@ -421,6 +444,9 @@ def run_case(case, acc):
                                   f"plan={plan!r}"))
             elif e["fd"] not in seen:
                 acc.count("left_out_checked")
+    if moved:
+        ps.PROCFS_PATH = "/vproc"
+        viols = [(m + ":procfs_path_moved_after_construction", d) for m, d in viols]
     # ---- the same static table through the other call paths (oneshot block, as_dict) ---------------------
     if not midscan:
         def call(fn):
